@@ -928,6 +928,17 @@ namespace avel {
     }
 
     [[nodiscard]]
+    AVEL_FINL vec4x64f fmod(vec4x64f a, vec4x64f b) {
+        // No vectorized remainder yet: each lane is evaluated with the scalar overload
+        auto x = to_array(a);
+        auto y = to_array(b);
+        for (std::uint32_t i = 0; i < vec4x64f::width; ++i) {
+            x[i] = avel::fmod(x[i], y[i]);
+        }
+        return vec4x64f{x};
+    }
+
+    [[nodiscard]]
     AVEL_FINL vec4x64f fdim(vec4x64f x, vec4x64f y) {
         return blend(x <= y, vec4x64f{0.0}, x - y);
     }
